@@ -150,8 +150,46 @@ def run_all(ctx, tier, props=('C14', 'C10')):
             shutil.rmtree(work, ignore_errors=True)
         if 'C14' in props:
             repeated_includes(ctx, r, root)
+        symlinked_source_dir(ctx, r, root, props)
     finally:
         shutil.rmtree(root, ignore_errors=True)
+
+
+def symlinked_source_dir(ctx, r, root, props):
+    """the source directory is reached through a symbolic link and the include path climbs out of it with `..`: the file the
+    operating system finds (link resolved first) is the one that is spliced / embedded - not the one a textual collapse of
+    `link/..` would name (a same-sized decoy sits there)"""
+    ctx.b_rule('includes-symlink: sources under a symlinked directory, include / include_bytes of ../x with a same-sized decoy at the textually collapsed path')
+    work = tempfile.mkdtemp(prefix='l_', dir=root)
+    real_src = os.path.join(work, 'releases', 'v2', 'src')
+    os.makedirs(real_src)
+    os.makedirs(os.path.join(work, 'releases', 'v2', 'assets'))
+    os.makedirs(os.path.join(work, 'assets'))
+    try:
+        os.symlink(os.path.join('releases', 'v2', 'src'), os.path.join(work, 'current'))
+    except OSError:
+        return
+    open(os.path.join(work, 'releases', 'v2', 'assets', 'logo.bin'), 'wb').write(b'REAL-LOGO!')
+    open(os.path.join(work, 'assets', 'logo.bin'), 'wb').write(b'DECOY-LOGO')
+    open(os.path.join(work, 'releases', 'v2', 'assets', 'defs.asm'), 'w').write('real_defs:\n    addi x5, x5, 1\n')
+    open(os.path.join(work, 'assets', 'defs.asm'), 'w').write('decoy_defs:\n    addi x6, x6, 2\n')
+    open(os.path.join(real_src, 'main.asm'), 'w').write('start:\ninclude ../assets/defs.asm\ninclude_bytes ../assets/logo.bin\n    align 4\n    j start\n')
+    exp_src = 'start:\nreal_defs:\n    addi x5, x5, 1\nbytes %s\n    align 4\n    j start\n' % ' '.join(str(b) for b in b'REAL-LOGO!')
+    main = os.path.join(work, 'current', 'main.asm')
+    for compress in (False, True):
+        exp = r.assemble(exp_src, compress=compress)
+        for cwd in (work, '/'):
+            got = r.assemble(main, compress=compress, cwd=cwd)
+            case = 'symlink|c%d|cwd=%s' % (compress, os.path.basename(cwd) or '/')
+            ctx.b_eval('includes', case, nontrivial=True, sample={'case': case})
+            if 'ok' in exp and not (got.get('ok') == exp['ok'] and got.get('labels') == exp['labels']):
+                bytes_only = got.get('labels') == exp.get('labels') or got.get('exc') in ('FileNotFoundError', 'AssertionError')
+                prop = 'C10' if bytes_only else 'C14'
+                if prop in props or 'C10' in props:
+                    ctx.violation('bounded/includes', 'include:%s' % ('bytes' if prop == 'C10' else 'splice'),
+                                  '%s: a source directory behind a symbolic link: %s vs expected %s' % (case, str({k: got.get(k) for k in ('ok', 'exc', 'msg')})[:160], str(exp.get('ok'))[:60]),
+                                  {'case': case, 'tree': 'current -> releases/v2/src ; include ../assets/... ; decoys in <root>/assets', 'got': got, 'expected': exp}, confirmed=True)
+    shutil.rmtree(work, ignore_errors=True)
 
 
 SNIP = ['N = N + 1', 'snip_mark:', '    addi x5, x5, N', '    pack <I N', '    c.addi x8, 1']
